@@ -117,7 +117,68 @@ def _norm_stmt(s):
         if sp is not None:
             c, x, y = sp
             return [S('if', c, _norm_stmt(S('assign', a[0], x, '=', loc=s.loc, raw=s.raw)), _norm_stmt(S('assign', a[0], y, '=', loc=s.loc, raw=s.raw)), loc=s.loc, raw=s.raw)]
+    # f(c ? a : b, c ? p : q) with a side-effect-free c: the two calls it abbreviates
+    pos = {'return': 0, 'decl': 2, 'assign': 1, 'expr': 0}.get(k)
+    if pos is not None and a[pos] is not None and (k != 'assign' or a[2] == '='):
+        sp = _call_cond(a[pos])
+        if sp is not None:
+            c, x, y = sp
+            mk = lambda v: S(k, *(list(a[:pos]) + [v] + list(a[pos + 1:])), loc=s.loc, raw=s.raw)
+            return [S('if', c, _norm_stmt(mk(x)), _norm_stmt(mk(y)), loc=s.loc, raw=s.raw)]
     return [s]
+
+
+def _pure_test(e):
+    """a condition that can be evaluated earlier without changing anything: names, constants, comparisons and logic of those"""
+    if e.k in ('var', 'const', 'this', 'null', 'str'):
+        return True
+    if e.k == 'field':
+        return _pure_test(e.a[0])
+    if e.k == 'cast':
+        return _pure_test(e.a[2])
+    if e.k == 'un':
+        return _pure_test(e.a[1])
+    if e.k == 'bin':
+        return _pure_test(e.a[1]) and _pure_test(e.a[2])
+    return False
+
+
+def _call_cond(e):
+    """e is a call / constructor display (possibly under conversions) one of whose arguments is `c ? x : y` with a pure c
+    -> (c, e with every such argument replaced by its first arm, ... by its second arm)"""
+    wraps = []
+    top = e
+    while top is not None and top.k == 'cast':
+        wraps.append(top)
+        top = top.a[2]
+    if top is None or top.k not in ('call', 'init'):
+        return None
+    args = top.a[2] if top.k == 'call' else top.a[1]
+    if not isinstance(args, (list, tuple)):
+        return None
+    cond = None
+    for x in args:
+        sp = _cond_parts(x) if isinstance(x, E) else None
+        if sp is not None and _pure_test(sp[0]):
+            cond = sp[0]
+            break
+    if cond is None:
+        return None
+    key = show(cond)
+
+    def pick(i):
+        out = []
+        for x in args:
+            sp = _cond_parts(x) if isinstance(x, E) else None
+            out.append(sp[1 + i] if (sp is not None and show(sp[0]) == key) else x)
+        if top.k == 'call':
+            n = E('call', top.a[0], top.a[1], out, *top.a[3:], loc=top.loc, ty=getattr(top, 'ty', None), raw=getattr(top, 'raw', None))
+        else:
+            n = E('init', top.a[0], out, *top.a[2:], loc=top.loc, ty=getattr(top, 'ty', None), raw=getattr(top, 'raw', None))
+        for w in reversed(wraps):
+            n = E('cast', w.a[0], w.a[1], n, loc=w.loc, ty=w.ty)
+        return n
+    return cond, pick(0), pick(1)
 
 
 def const(v, **kw):
